@@ -178,6 +178,11 @@ class EEA:
     # ------------------------------------------------------------------ util
 
     def mro(self, exc: str) -> list[str]:
+        if "." not in exc:
+            import builtins as _b
+
+            if isinstance(getattr(_b, exc, None), type) and issubclass(getattr(_b, exc), BaseException):
+                exc = f"builtins.{exc}"  # a builtin exception class named without its module (an annotation, a table key)
         m = self.prog.mro_of(exc)
         if m is None:
             m = S.FALLBACK_MRO.get(exc)
@@ -1239,6 +1244,13 @@ class EEA:
         for item in s.items:
             ce = item.context_expr
             e = self.merge(e, self.expr(ce, st))
+            # an instance of a repository class whose __exit__ can return something truthy (it swallows exceptions of the
+            # with-body) and that was not written out at parse time: which exceptions pass is not modelled
+            cmc_ = self._repo_class_of_type(self.prog.type_of(fr.module, ce))
+            if cmc_ is not None:
+                ex_ = cmc_.find_method("__aexit__" if isinstance(s, ast.AsyncWith) else "__exit__")
+                if ex_ is not None and any(isinstance(r_, ast.Return) and r_.value is not None and not (isinstance(r_.value, ast.Constant) and not r_.value.value) for r_ in self.I.own_nodes(ex_)):
+                    raise AnalysisError(f"the context manager class {cmc_.name} can swallow exceptions of the with-body ({ex_.name} returns a value) and is not written out at {fr.module.relpath}:{s.lineno}: not modelled")
             if isinstance(ce, ast.Call):
                 fact = self.prog.call_fact(fr.module, ce)
                 if fact and fact[0] and fact[0].startswith(PKG):
@@ -1479,6 +1491,9 @@ class EEA:
         if not origins:
             t = self.prog.type_of(fr.module, x) or "builtins.Exception"
             origins = {t.split(" | ")[0]}
+            if origins & {"builtins.Exception", "builtins.BaseException", "Exception", "BaseException", "Any"}:
+                # where the raised object was built is not found and its declared type says nothing: no verdict
+                raise AnalysisError(f"`raise {norm(x)}` at {fr.module.relpath}:{s.lineno}: the places that build the raised object are not found (declared type {t}) - not modelled")
         for c in origins:
             self.obligations += 1
             e = self.merge(e, self._one(c, self.site(fr, s, "raise", f"raise {norm(x)}"), fr))
